@@ -297,6 +297,17 @@ theorem alias_is_substitution_rule (cfg : Cfg) (s : PS) (hf : Flat s.aliases) :
     RelS RuleRel (parseRule cfg (strip s)) (parseRule cfg s) :=
   parseRule_rel hf cfg
 
+/-- ill-formed SUPERIORS lists: `_parse_superiors` succeeds only if the list it read (`parseIds`, after
+    the keyword) names no rule twice — whatever the named rules inherit — and names only rules stored
+    before; its result is then the sorted set of the listed names and the superiors of each.
+    (`SUPERIORS mid, mid` below `mid → top` is rejected: `Props/C02Examples2.lean`.) -/
+theorem superiors_list_checked (fuel : Nat) (s s' : PS) (sup : List String)
+    (h : parseSuperiors fuel s = .ok (sup, s')) :
+    ∃ x s1 decl, consume .superiors s = .ok (x, s1) ∧ parseIds fuel s1 = .ok (decl, s') ∧
+      hasDupStr decl = false ∧ (∀ n ∈ decl, (s'.rules.find? (·.name == n)).isSome = true) ∧
+      sup = sortDedupStr (decl ++ decl.flatMap (supOf s'.rules)) :=
+  parseSuperiors_sound fuel s s' sup h
+
 /-- thm 4 and completeness together: a rule whose CONDITIONS are written *with aliases* — any state
     with a flat table whose substituted input is the mandatory sections followed by tokens `w` that
     read (type and text; the `aliased` flags the substituted tokens carry do not matter) like the
